@@ -162,7 +162,7 @@ def rawSet (cfg : Cfg) (f : Forest) (t : Nat) (key : Key) (ins : Bool) (ve : VE)
   | some (.node m its) =>
     match m.kind, key with
     | .list, .i idx => rawSetList cfg f m its idx ins ve
-    | .list, .s _ => .error .assertion      -- list.py:400 `assert isinstance(key, numbers.Integral)`
+    | .list, .s _ => .error .key            -- list.py:400: a non-integer key on a list raises KeyError (acbfa50; an assert before)
     | _, k => rawSetDict cfg f m its k ve
   | _ => .error .key
 
